@@ -4,6 +4,16 @@
 //
 //   {"op":"E","c":[[b0,b1,..],..]}  ->  {"op":"E","c":[[input, encode(input), decode(encode(input))],..]}
 //   {"op":"D","c":[[c0,c1,..],..]}  ->  {"op":"D","c":[[text, decode(text)],..]}
+//   {"op":"ES","pos":p,"c":[[b..],..]}  encoder sweep (round 3): each case is an input of length 1..3 whose byte at position p
+//        (1-based) is a placeholder; the harness runs base64encode + base64decode(base64encode) for ALL 256 values of that byte
+//        ->  {"op":"ES","pos":p,"c":[[input, [elen,p1,p2,dlen,dp, elen,p1,p2,dlen,dp, ...256 times]],..]}
+//        elen/dlen: lengths of the two results; p1 = e[0]*256+e[1], p2 = e[2]*256+e[3] (missing characters count as 0; elen > 4:
+//        p1 = p2 = -1); dp = the decoded bytes as a base-256 number, most significant first (dlen > 3: -1)
+//   {"op":"DS","pos":p,"c":[[c..],..]}  decoder sweep: text of length 1..5 with the character at position p swept over 0..255;
+//        the 256 results (dlen * 2^24 + decoded bytes as a base-256 number; dlen > 3: -1) are printed run-length encoded
+//        ->  {"op":"DS","pos":p,"c":[[text, [[lo,hi,v],..]],..]}
+//   "arg":1 on a script line (round 3): every argument string is built with more capacity than size (reserve, then assign -
+//        the state of a string that was longer before); the slack behind the terminator is poisoned under AddressSanitizer
 //   (any further key of a script line, e.g. "bld", is ignored)
 //
 // Bytes/characters are written as their unsigned values 0..255.  Every argument string is a
@@ -78,10 +88,34 @@ struct arg_string
     const char* poisoned = nullptr;
     std::size_t npoisoned = 0;
 
-    arg_string(const char* p, std::size_t n)
+    arg_string(const char* p, std::size_t n, int mode = 0)
     {
         std::unique_ptr<char[]> raw(new char[n ? n : 1]);     // exact-size heap copy
         for (std::size_t i = 0; i < n; ++i) raw[i] = p[i];
+        if (mode == 1)
+        {
+            // capacity > size: a heap buffer with slack behind the terminator (as after clear()/resize() of a longer string)
+            s.reset(new std::string());
+            s->reserve(n + 24 + (n % 7));
+            s->assign(raw.get(), n);
+#ifdef VERIF_ASAN
+            const char* d = s->data();
+            const char* obj = reinterpret_cast<const char*>(s.get());
+            if (!(d >= obj && d < obj + sizeof(std::string)) && s->capacity() > n)
+            {
+                const char* from = d + n + 1;
+                const char* to = d + s->capacity() + 1;
+                to -= reinterpret_cast<std::uintptr_t>(to) % 8;          // whole shadow granules only
+                if (from < to)
+                {
+                    poisoned = from;
+                    npoisoned = std::size_t(to - from);
+                    ASAN_POISON_MEMORY_REGION(poisoned, npoisoned);
+                }
+            }
+#endif
+            return;
+        }
         s.reset(new std::string(raw.get(), n));
 #ifdef VERIF_ASAN
         // small-string buffer inside the object: poison what lies behind the terminator, up to the end of the object
@@ -128,7 +162,10 @@ int main()
         if (line.empty()) continue;
         vj::value ev = vj::parse(line);
         const std::string& op = ev.str("op");
-        std::string o = "{\"op\":\"" + op + "\",\"c\":[";
+        const int mode = ev.has("arg") ? int(ev.num("arg")) : 0;
+        const bool sweep = op == "ES" || op == "DS";
+        const int pos = sweep ? int(ev.num("pos")) : 0;
+        std::string o = "{\"op\":\"" + op + "\"," + (sweep ? "\"pos\":" + std::to_string(pos) + "," : std::string()) + "\"c\":[";
         bool first = true;
         arm_watchdog();
         for (const vj::value& c : ev.at("c").a)
@@ -136,11 +173,55 @@ int main()
             if (!first) o += ',';
             first = false;
             std::string raw = raw_of(c);
-            arg_string arg(raw.data(), raw.size());
+            if (sweep)
+            {
+                if (pos < 1 || std::size_t(pos) > raw.size() || raw.size() > (op == "ES" ? 3u : 5u)) { std::fprintf(stderr, "script: bad sweep\n"); return 3; }
+                std::string shown = raw;
+                shown[std::size_t(pos - 1)] = 0;
+                o += "[" + ints_of(shown) + ",[";
+                long long run_lo = 0, run_v = 0;
+                for (int v = 0; v < 256; ++v)
+                {
+                    raw[std::size_t(pos - 1)] = (char)(unsigned char)v;
+                    arg_string a(raw.data(), raw.size(), mode);
+                    if (op == "ES")
+                    {
+                        std::string enc = bytes_of(xtl::base64encode(*a.s));
+                        arg_string ea(enc.data(), enc.size(), mode);
+                        std::string dec = bytes_of(xtl::base64decode(*ea.s));
+                        long long p1 = -1, p2 = -1, dp = -1;
+                        if (enc.size() <= 4)
+                        {
+                            unsigned char e[4] = {0, 0, 0, 0};
+                            for (std::size_t i = 0; i < enc.size(); ++i) e[i] = (unsigned char)enc[i];
+                            p1 = e[0] * 256 + e[1]; p2 = e[2] * 256 + e[3];
+                        }
+                        if (dec.size() <= 3) { dp = 0; for (char ch : dec) dp = dp * 256 + (unsigned char)ch; }
+                        if (v) o += ',';
+                        o += std::to_string(enc.size()) + "," + std::to_string(p1) + "," + std::to_string(p2) + "," + std::to_string(dec.size()) + "," + std::to_string(dp);
+                    }
+                    else
+                    {
+                        std::string dec = bytes_of(xtl::base64decode(*a.s));
+                        long long r = -1;
+                        if (dec.size() <= 3) { r = 0; for (char ch : dec) r = r * 256 + (unsigned char)ch; r += (long long)dec.size() * 16777216LL; }
+                        if (v == 0) { run_lo = 0; run_v = r; }
+                        else if (r != run_v)
+                        {
+                            o += (run_lo ? ",[" : "[") + std::to_string(run_lo) + "," + std::to_string(v - 1) + "," + std::to_string(run_v) + "]";
+                            run_lo = v; run_v = r;
+                        }
+                    }
+                }
+                if (op == "DS") o += (run_lo ? ",[" : "[") + std::to_string(run_lo) + ",255," + std::to_string(run_v) + "]";
+                o += "]]";
+                continue;
+            }
+            arg_string arg(raw.data(), raw.size(), mode);
             if (op == "E")
             {
                 std::string enc = bytes_of(xtl::base64encode(*arg.s));
-                arg_string earg(enc.data(), enc.size());
+                arg_string earg(enc.data(), enc.size(), mode);
                 std::string dec = bytes_of(xtl::base64decode(*earg.s));
                 o += "[" + ints_of(*arg.s) + "," + ints_of(enc) + "," + ints_of(dec) + "]";
             }
